@@ -182,8 +182,9 @@ class MerkleCache(object):
             start = self._leaf_start(self.length)
             hashes = await self.source_func(start, length - start)
             # A truncation whilst waiting for the source means the hashes read may have
-            # been replaced; read them again
-            if truncations == self.truncations:
+            # been replaced; read them again.  A concurrent request may have extended the
+            # cache further than this one; do not shrink it
+            if truncations == self.truncations and length > self.length:
                 self.level[start >> self.depth_higher:] = self._level(hashes)
                 self.length = length
 
